@@ -1271,7 +1271,7 @@ class RunningOrderReplace(RunningOrder):
         """
         print("REPLACE RO:")
         for tag in self.base_tag:
-            if tag.text.strip():
+            if tag.text and tag.text.strip():
                 print("", tag.tag + ":", tag.text.strip())
 
 
